@@ -20,7 +20,7 @@ RULE = ("a scenario is one history V0 -haplotag-> B, V0 -unphase-> U (optionally
         "independent worlds as chromosomes. 'gen' scenarios bundle TLC-enumerated tiny worlds (MC_TagPhaseChain: every call "
         "pattern over 3 sites with <= 2 contiguous phase sets, every multiset of <= 2 error-free reads that do not span two "
         "sets, every subset of kept sets); 'rand' scenarios are seeded larger worlds (<= 9 sites, <= 3 sets, indels, two "
-        "samples, mate pairs); 'bxmol' scenarios are linked-read worlds (--linked-read-distance-cutoff 140): one barcode on several "
+        "samples, mate pairs, records with two ALT alleles and genotypes 1|2, 2|1, 0|2, 2|0); 'bxmol' scenarios are linked-read worlds (--linked-read-distance-cutoff 140): one barcode on several "
         "molecules that start farther apart than the cutoff and copy different haplotypes, the reads of a molecule start within "
         "half the cutoff; 'hazard' scenarios are worlds in which a kept (pre-phased) set has a site that no tagged "
         "read covers. A scenario is non-trivial if the chain succeeded, a read was tagged and W phases >= 2 sites that U "
@@ -43,24 +43,38 @@ def _cfg(ctx, name, consts, invs, constraint=None):
                          constraint=constraint)
 
 
-MC_INVS = ["InvPremise", "InvOrderRestored", "InvSetOfCoveringReads", "InvPrephasedUntouched", "InvCoveredIsRephased"]
+MC_INVS = ["InvPremise", "InvOrderRestored", "InvAllelesKept", "InvSetOfCoveringReads", "InvPrephasedUntouched", "InvCoveredIsRephased"]
 
 
 def design_mc(ctx):
-    consts = dict(N=3, NReads=2, MaxSets=2, WithKeep="TRUE") if ctx.quick else dict(N=4, NReads=2, MaxSets=3, WithKeep="TRUE")
-    r = tlc.model_check("MC_TagPhaseChain", cfg=_cfg(ctx, "MC_TagPhaseChain", consts, MC_INVS), workers=NPROC, timeout=3000)
-    r["what"] = (f"MC_TagPhaseChain: haplotag / unphase (either order) then haplotagphase as actions over an abstract file system, "
-                 f"all worlds with {consts['N']} sites, <= {consts['MaxSets']} sets, <= {consts['NReads']} reads, every kept subset: "
-                 f"OrderRestored, SetOfCoveringReads, PrephasedUntouched")
-    return [r]
+    if ctx.quick:
+        cfgs = [("biallelic", dict(N=3, NReads=2, MaxSets=2, WithKeep="TRUE", Multi="FALSE")),
+                ("multiallelic", dict(N=2, NReads=2, MaxSets=2, WithKeep="TRUE", Multi="TRUE"))]
+    else:
+        cfgs = [("biallelic", dict(N=4, NReads=2, MaxSets=3, WithKeep="TRUE", Multi="FALSE")),
+                ("multiallelic", dict(N=3, NReads=2, MaxSets=2, WithKeep="FALSE", Multi="TRUE"))]
+    out = []
+    for tag, consts in cfgs:
+        r = tlc.model_check("MC_TagPhaseChain", cfg=_cfg(ctx, "MC_TagPhaseChain_" + tag, consts, MC_INVS), workers=NPROC, timeout=3000)
+        r["what"] = (f"MC_TagPhaseChain[{tag}]: haplotag / unphase (either order) then haplotagphase as actions over an abstract file "
+                     f"system, all worlds with {consts['N']} sites, <= {consts['MaxSets']} sets, <= {consts['NReads']} reads, kept subsets "
+                     f"{consts['WithKeep']}, genotypes with allele 2 {consts['Multi']}: OrderRestored, AllelesKept, SetOfCoveringReads, "
+                     f"PrephasedUntouched")
+        out.append(r)
+    return out
 
 
 # ----------------------------------------------------------------------------------------------
 def _tlc_worlds(ctx):
-    consts = dict(N=3, NReads=2, MaxSets=2, WithKeep="TRUE")
+    consts = dict(N=3, NReads=2, MaxSets=2, WithKeep="TRUE", Multi="FALSE")
     cfg = _cfg(ctx, "Emit_TagPhaseChain", consts, ["Emit"], constraint="StopAtRun")
     hs, r = tlc.behaviours("MC_TagPhaseChain", cfg, timeout=1800)
-    return hs
+    # worlds with multi-allelic genotypes (1/2, 2/1, 0/2, 2/0): 2 sites
+    consts = dict(N=2, NReads=2, MaxSets=2, WithKeep="TRUE", Multi="TRUE")
+    cfg = _cfg(ctx, "Emit_TagPhaseChain_multi", consts, ["Emit"], constraint="StopAtRun")
+    hm, r = tlc.behaviours("MC_TagPhaseChain", cfg, timeout=1800)
+    hm = [w for w in hm if any(max(t) >= 2 for t in w["truth"])]
+    return hs, hm
 
 
 def _world_from_tlc(w, rng):
@@ -69,19 +83,47 @@ def _world_from_tlc(w, rng):
     for j, c in enumerate(w["v0"]):
         t = w["truth"][j]
         mode = "phased" if c["ph"] else ("hom" if t[0] == t[1] else "unphased")
-        sites.append({"truth": [t], "mode": [mode], "set": [c["ps"]]})
+        sites.append({"truth": [t], "mode": [mode], "set": [c["ps"]], "nalt": 2 if max(t) >= 2 else 1})
     reads = [{"smp": 1, "lo": r["cov"][0], "hi": r["cov"][-1], "al": r["al"], "rev": rng.random() < 0.5, "pair": 0} for r in w["reads"]]
     return {"sites": sites, "reads": reads, "keep": [[1, k] for k in w["keep"]]}
 
 
+def _tagged(ch, r):
+    """an error-free read is tagged iff it covers a phased heterozygous bi-allelic site of its sample (haplotag skips multi-ALT records)"""
+    s = r["smp"] - 1
+    return any(ch["sites"][j - 1]["mode"][s] == "phased" and ch["sites"][j - 1].get("nalt", 1) == 1 for j in range(r["lo"], r["hi"] + 1))
+
+
 def _uncovered_kept(ch):
-    """does a kept phase set have a phased site that no single-end read of its sample covers (hazard class)?"""
+    """does a kept phase set have a phased site that no tagged single-end read of its sample covers (hazard class)?"""
     for s, k in ch["keep"]:
         for j, st in enumerate(ch["sites"], start=1):
             if st["mode"][s - 1] == "phased" and st["set"][s - 1] == k:
-                if not any(r["smp"] == s and not r["pair"] and r["lo"] <= j <= r["hi"] for r in ch["reads"]):
+                if not any(r["smp"] == s and not r["pair"] and r["lo"] <= j <= r["hi"] and _tagged(ch, r) for r in ch["reads"]):
                     return True
     return False
+
+
+REMAPS = [{0: 0, 1: 2}, {0: 1, 1: 2}, {0: 2, 1: 1}, {0: 2, 1: 0}, {0: 0, 1: 1}]
+
+
+def _multiallelic(rng, ch, p):
+    """turn some sites into records with two ALT alleles; per sample the genotype becomes 0/2, 1/2, 2/1 (or stays 0/1) and the
+    reads of that sample show the renamed alleles"""
+    for j, st in enumerate(ch["sites"], start=1):
+        if rng.random() >= p:
+            continue
+        st["nalt"] = 2
+        for s in range(len(st["truth"])):
+            mp = rng.choice(REMAPS)
+            st["truth"][s] = [mp[a] for a in st["truth"][s]]
+            for r in ch["reads"]:
+                if r["smp"] == s + 1 and r["lo"] <= j <= r["hi"]:
+                    r["al"][j - r["lo"]] = mp[r["al"][j - r["lo"]]]
+    # a kept set must stay covered by tagged reads (a read that sees only multi-allelic sites is not tagged by haplotag)
+    ch["keep"] = [[s, k] for s, k in ch["keep"]
+                  if not _uncovered_kept({"sites": ch["sites"], "reads": ch["reads"], "keep": [[s, k]]})]
+    return ch
 
 
 def _rand_world(rng, nsmp):
@@ -202,7 +244,7 @@ def _bx_world(rng, nsmp):
 def _kinds(rng, ch, mode):
     for st in ch["sites"]:
         x = rng.random()
-        if x < 0.6:
+        if x < 0.6 or st.get("nalt", 1) == 2:
             st["kind"], st["len"] = "snv", 1
         elif x < 0.8:
             st["kind"], st["len"] = "ins", (1 if mode == "noref" else rng.randint(1, 3))
@@ -215,10 +257,11 @@ def scenarios(ctx):
     q = ctx.quick
     rng = ctx.rng
     no_hazard = bool(os.environ.get("WV_C17_NO_HAZARD")) or "--selftest" in sys.argv
-    worlds = _tlc_worlds(ctx)
-    ctx.notes["tlc_enumerated_worlds"] = len(worlds)
+    worlds, mworlds = _tlc_worlds(ctx)
+    ctx.notes["tlc_enumerated_worlds"] = {"biallelic_3sites": len(worlds), "multiallelic_2sites": len(mworlds)}
     worlds.sort(key=lambda w: json.dumps(w, sort_keys=True))
-    chosen = worlds if not q else rng.sample(worlds, 1400)
+    mworlds.sort(key=lambda w: json.dumps(w, sort_keys=True))
+    chosen = (worlds if not q else rng.sample(worlds, 1200)) + (mworlds if not q else rng.sample(mworlds, min(len(mworlds), 600)))
     plain, hazard = [], []
     for w in chosen:
         ch = _world_from_tlc(w, rng)
@@ -236,12 +279,14 @@ def scenarios(ctx):
         nsmp = rng.choice([1, 1, 2])
         mode = rng.choice(["ref", "noref"])
         scs.append({"kind": "rand", "seed": rng.randrange(1 << 30), "mode": mode, "nsmp": nsmp,
-                    "chroms": [_kinds(rng, _rand_world(rng, nsmp), mode) for _ in range(rng.randint(1, 3))]})
+                    "chroms": [_kinds(rng, _multiallelic(rng, _rand_world(rng, nsmp), rng.choice([0, 0.15, 0.4])), mode)
+                               for _ in range(rng.randint(1, 3))]})
     for _ in range(60 if q else 800):
         nsmp = rng.choice([1, 1, 2])
         mode = rng.choice(["ref", "noref"])
         scs.append({"kind": "bxmol", "seed": rng.randrange(1 << 30), "mode": mode, "nsmp": nsmp,
-                    "chroms": [_kinds(rng, _bx_world(rng, nsmp), mode) for _ in range(rng.randint(1, 2))]})
+                    "chroms": [_kinds(rng, _multiallelic(rng, _bx_world(rng, nsmp), rng.choice([0, 0, 0.2])), mode)
+                               for _ in range(rng.randint(1, 2))]})
     if not no_hazard:
         bundle(hazard if not q else hazard[:40], "hazard:prephased_uncovered", 8)
     ctx.notes["scenario_kinds"] = {k: sum(1 for s in scs if s["kind"] == k) for k in sorted({s["kind"] for s in scs})}
@@ -300,9 +345,12 @@ def drive(sc):
                 for j, st in enumerate(ch["sites"]):
                     if st["mode"][s] == "phased":
                         psval.setdefault((ci, s, st["set"][s]), lay["vars"][j].pos + 1)
+            lay["alt2"] = []
             for j, (st, v) in enumerate(zip(ch["sites"], lay["vars"])):
                 site_index[(lay["name"], v.pos + 1)] = len(site_index)
-                recs0.append({"chrom": lay["name"], "pos": v.pos + 1, "ref": v.ref, "alt": v.alt, "fmt": ["GT", "PS"],
+                a2 = rng.choice([b for b in "ACGT" if b not in (v.ref, v.alt)]) if st.get("nalt", 1) == 2 else None
+                lay["alt2"].append(a2)
+                recs0.append({"chrom": lay["name"], "pos": v.pos + 1, "ref": v.ref, "alt": v.alt + ("," + a2 if a2 else ""), "fmt": ["GT", "PS"],
                               "calls": [_call_text(st, s, psval.get((ci, s, st["set"][s]), 0)) for s in range(nsmp)]})
         v0 = W.write_vcf(os.path.join(d, "v0.vcf"), samples, contigs, recs0, compress=True)
         # reads
@@ -310,8 +358,11 @@ def drive(sc):
         off = 0
         for ci, (ch, lay) in enumerate(zip(sc["chroms"], chroms)):
             for ri, r in enumerate(ch["reads"]):
-                a = {"kind": "prim", "lo": r["lo"], "hi": r["hi"], "al": r["al"], "third": [], "rev": r["rev"]}
-                rec, obs = c10._build_alignment(sc, rng, lay, a, 0)
+                # a read showing ALT2 of a multi-allelic record is built from the bi-allelic variant REF>ALT2
+                vs = [W.Variant(v.pos, v.ref, lay["alt2"][j]) if (r["lo"] <= j + 1 <= r["hi"] and r["al"][j + 1 - r["lo"]] == 2) else v
+                      for j, v in enumerate(lay["vars"])]
+                a = {"kind": "prim", "lo": r["lo"], "hi": r["hi"], "al": [1 if x else 0 for x in r["al"]], "third": [], "rev": r["rev"]}
+                rec, obs = c10._build_alignment(sc, rng, dict(lay, vars=vs), a, 0)
                 xi = len(reads) + 1
                 flag = 16 if r["rev"] else 0
                 name = f"r{xi}"
